@@ -89,6 +89,11 @@ let run_prog id (cfgs : string) (lines : string list) =
          | ["paths"; a; m] -> let (s, (x, y)) = paths c !st (reg a) (m = "1") in st := s; emit id qid ("paths " ^ sn x ^ " " ^ sn y)
          | ["models"; a; m] -> let (s, (x, y)) = models c !st (reg a) (m = "1") in st := s; emit id qid ("models " ^ sn x ^ " " ^ sn y)
          | ["depth"; a] -> emit id qid ("depth " ^ sn (max_depth c !st (reg a)))
+         | ["reimport"; how] ->
+           let before = table_of !st in
+           let st' = if how = "json" then fix_import_cur c (import_raw before) else if how = "live" then fix_import_cur c !st else from_nodes c before in
+           emit id qid ("reimport " ^ how ^ " nodes_equal=" ^ (if table_of st' = before then "1" else "0"));
+           st := st'
          | ["deps"; a] -> emit id qid ("deps " ^ String.concat "," (sort_n (var_dependencies c !st (reg a))))
          | ["cubes"; a; g; gv] -> emit id qid ("cubes " ^ cubes_string (cubes !st (reg a) (g = "1") (n_of_string gv)))
          | "pimp" :: v :: l -> emit id qid ("pimp " ^ sn (passive_var_impact c !st (n_of_string v) (List.map reg l)))
@@ -256,14 +261,15 @@ let run_adf id (lines : string list) =
           | ["roundtrip"; how] ->
             let before = table_of a.st in
             let st' = (match how with
-                       | "json" -> fix_import c (import_raw before)
+                       | "json" -> fix_import_cur c (import_raw before)
+                       | "live" -> fix_import_cur c a.st
                        | "jsonnofix" -> import_raw before
                        | _ -> from_nodes c before) in
             let eqtab = (table_of st' = before) in
             let uniq_eq = List.for_all (fun nd -> nd.nv = n_of_string "18446744073709551614" || nd.nv = n_of_string "18446744073709551615"
                                                   || TM.find (nd.nv, (nd.nlo, nd.nhi)) st'.uniq = TM.find (nd.nv, (nd.nlo, nd.nhi)) a.st.uniq) before in
             let vd_eq = List.for_all (fun h -> List.sort compare (get_vd st' (n_of_int h)) = List.sort compare (get_vd a.st (n_of_int h)))
-                          (List.init (List.length before) (fun i -> i)) in
+                          (List.init (List.length before) (fun i -> i)) && st'.vsize = a.st.vsize in
             emit id qid ("roundtrip " ^ how ^ " nodes_equal=" ^ (if eqtab then "1" else "0") ^ " ac_equal=1"
                          ^ " uniq_equal=" ^ (if uniq_eq then "1" else "0") ^ " vdeps_equal=" ^ (if vd_eq then "1" else "0"));
             a.st <- st'
